@@ -474,19 +474,19 @@ func runGated(r *ev.Run, dir string, cfg cfgT, seed uint64, policy string) (stri
 		}
 		m := corpus.NewLWW()
 		matched := -1
-		var lastDiff string
+		var diffs []string
 		for j := 0; j <= len(released); j++ {
 			if j > 0 {
 				m.Apply(writers[released[j-1].W][released[j-1].K-1])
 			}
 			if d := sched.Diff(v, m, keys); d == "" {
 				matched = j // keep the largest matching prefix
-			} else if j == len(released) {
-				lastDiff = d
+			} else {
+				diffs = append(diffs, fmt.Sprintf("prefix %d: %s", j, d))
 			}
 		}
 		if matched < 0 {
-			fail(rn, &s, "image-is-no-prefix-state", fmt.Sprintf("image at step %d opens to a state that is not the replay of any prefix of the release order %v (vs full replay: %s)", rn.Steps, released, lastDiff))
+			fail(rn, &s, "image-is-no-prefix-state", fmt.Sprintf("image at step %d opens to a state that is not the replay of any prefix of the release order %v; image shows %d docs %v internal %v; heuristic (non-strict) points so far %d; %s", rn.Steps, released, v.DocCount, v.Docs, v.Internal, rn.Heuristic, strings.Join(diffs, " | ")))
 			return
 		}
 		if matched < minJ {
